@@ -206,4 +206,18 @@ def run(case):
         if RJ is not None and RL is not None:
             out.label("linearity")
             out.check(np.abs(RL - (a * R + b * RJ)).max() <= 1e-9 * (1 + abs(a) + abs(b)) * (1 + np.abs(I).max() + np.abs(J).max()), "not_linear", "")
+    # strong attenuation, measured relatively: a zero-mean plane wave at a high frequency, small pixels, the largest dose -
+    # the surviving amplitude (1e-10 .. 1e-40 of the input) is still far above the noise of the transforms
+    if not out.violations and c["seed"] % 3 == 0:
+        hh, ww = h, w
+        kx_, ky_ = max(1, ww // 2 - 1), max(1, hh // 3)
+        yy, xx = np.meshgrid(np.arange(hh), np.arange(ww), indexing="ij")
+        wave = np.cos(2 * np.pi * (kx_ * xx / ww + ky_ * yy / hh) + 0.3)
+        px_s, d_s = [0.5, 0.8, 1.2][c["seed"] % 9 // 3], [300.0, 250.0, 180.0][c["seed"] % 27 // 9]
+        g_s = gain(hh, ww, px_s, d_s)[ky_, kx_]
+        ok_s, r_s = call(out, "dose_filter(strong attenuation)", lambda: tiltstack.dose_filter(wave[None].copy(), px_s, [d_s], input_order="zyx", output_order="zyx"))
+        if ok_s and np.asarray(r_s).shape == (1, hh, ww) and g_s > 1e-250:
+            ratio = np.fft.fft2(np.asarray(r_s, dtype=np.float64)[0])[ky_, kx_] / np.fft.fft2(wave)[ky_, kx_]
+            out.label("strong_attenuation_measured")
+            out.check(abs(ratio - g_s) <= 1e-6 * g_s, "gain:strong_attenuation_not_the_formula_relatively", f"px {px_s} dose {d_s} size {ww}x{hh} at ({kx_},{ky_}): got {ratio!r} expected {g_s!r}")
     return out
